@@ -17,7 +17,7 @@ def convert_state(lbl, st):
     b = st['bucket']
     return {'act': act, 'main': fn(st['main']), 'store': fn(st['store']), 'lastTxn': st['lastTxn'],
             'clock': st['clock'], 'pc': st['pc'], 'lastSynced': st['lastSynced'], 'waitingOwn': st['waitingOwn'],
-            'uncaptured': st['uncaptured'], 'nbucket': len(b),
+            'uncaptured': st['uncaptured'], 'nbucket': len(b), 'committedN': st['committedN'],
             'newestImg': img_of(b[-1]['img']) if b else {}}
 
 
